@@ -462,46 +462,71 @@ def reverse_dns(ctx):
     prog = ctx.prog
     R6 = ctx.rule("R6", "IP identifiers are validated under their reverse-DNS names (RFC 8738): in-addr.arpa / ip6.arpa, reversed, nibble order")
     gb = prog.must_body("acmed::identifier::Identifier::get_tls_alpn_name")
-    # per address family: the text used on the V4 arm names in-addr.arpa (and not ip6.arpa), on the V6 arm ip6.arpa; the labels
-    # and the zone are joined with '.'
-    arms = {}
-    for i in sorted(gb.live_blocks()):
-        t = gb.term(i)
-        if t["t"] != "switch":
-            continue
-        dl = op_local(t["discr"])
-        for kind, bb_, j, st in gb.defs.get(dl, []):
-            if kind == "stmt" and st["s"] == "assign" and st["rv"]["k"] == "discr" and (st["rv"].get("adt") or "").endswith("IpAddr"):
-                names = {int(v[0]): v[1] for v in st["rv"].get("variants", [])}
-                tg = {names.get(v): x for v, x in t["arms"]}
-                rest = [n for n in names.values() if n not in tg]
-                if len(rest) == 1:
-                    tg[rest[0]] = t["otherwise"]
-                arms = tg
-    zone = {}
-    if set(arms) >= {"V4", "V6"}:
-        r4, r6 = gb.reachable([arms["V4"]]), gb.reachable([arms["V6"]])
-        zone["V4"] = "".join(strings_in_blocks(gb, sorted(r4 - r6)))
-        zone["V6"] = "".join(strings_in_blocks(gb, sorted(r6 - r4)))
-    lit = format_literals(gb)
-    good = "in-addr.arpa" in zone.get("V4", "") and "ip6.arpa" not in zone.get("V4", "") and "ip6.arpa" in zone.get("V6", "") and "in-addr.arpa" not in zone.get("V6", "")
-    dotted = any(x.startswith(".") for x in lit) or "." in lit
-    ctx.require(R6, good and dotted, "%s:%s" % (gb.file, gb.line), "IPv4 -> <labels>.in-addr.arpa, IPv6 -> <labels>.ip6.arpa (V4 arm: %r, V6 arm: %r, format literals %s)" % (zone.get("V4"), zone.get("V6"), lit),
-                ["get_tls_alpn_name", "suffixes"])
-    revs = gb.calls_to("core::iter::traits::iterator::Iterator::rev")
-    ctx.require(R6, len(revs) >= 2, "%s:%s" % (gb.file, gb.line), "octets are reversed for both address families (%d rev())" % len(revs), ["get_tls_alpn_name", "reversed"])
-    nb = prog.must_body("acmed::identifier::u8_to_nibbles_string")
-    ops = [(st["lhs"]["l"], st["rv"]["op"], op_const(st["rv"]["b"])) for i in sorted(nb.live_blocks()) for st in nb.blocks[i]["stmts"] if st["s"] == "assign" and st["rv"]["k"] == "binop" and st["rv"]["op"] in ("BitAnd", "Shr")]
-    # the two values printed, in print order (the argument array of the format!): first the low nibble (& 0x0f, no shift), then
-    # the high nibble (>> 4) — found through the formatting arguments, not through the names of the locals
-    good = False
-    for i in sorted(nb.live_blocks()):
-        for st in nb.blocks[i]["stmts"]:
-            if st["s"] == "assign" and st["rv"]["k"] == "agg" and st["rv"].get("agg") == "array" and len(st["rv"]["ops"]) == 2 and "fmt::rt::Argument" in nb.local_ty(st["lhs"]["l"]):
-                f = origins(nb, st["rv"]["ops"][0])
-                s_ = origins(nb, st["rv"]["ops"][1])
-                good = "binop:BitAnd" in f.via and "binop:Shr" not in f.via and "binop:Shr" in s_.via
-    ctx.require(R6, good, "%s:%s" % (nb.file, nb.line), "IPv6 nibbles: low nibble first, then the high nibble", ["u8_to_nibbles_string", "order"])
+    # evaluation-first: the name is COMPUTED by the interpreter for sample addresses of both families (every octet distinct, both
+    # nibbles distinct) and compared with RFC 8738's reverse-DNS name; whatever the shape of the code
+    import ipaddress
+    from ..absint import Val, run as arun, struct_val, variant as avariant, vstr
+    IDK = "acmed::identifier::Identifier"
+    samples = ["192.0.2.7", "10.200.30.4", "2001:db8:85a3::8a2e:370:7334", "fe80::1c2d:3e4f:a7b6:95d8"]
+    results = {}
+    for a in samples:
+        idv = struct_val(prog, IDK, {"id_type": avariant("acmed::identifier::IdentifierType", "Ip"), "value": vstr(a)})
+        try:
+            r = arun(gb, {1: Val("ref", idv)}, None, max_steps=60000, follow=lambda cs: (cs.name or "").startswith("acmed::identifier::"))
+        except Exception:
+            r = None
+        got = None
+        if r is not None and r.kind == "return" and r.ret is not None:
+            rv = r.ret.deref()
+            if rv.k == "adt" and rv.extra and rv.extra[1] == "Ok" and rv.v and rv.v[0].deref().k == "str":
+                got = rv.v[0].deref().v
+        results[a] = got
+    if all(v is not None for v in results.values()):
+        for a, got in results.items():
+            want = ipaddress.ip_address(a).reverse_pointer
+            ctx.require(R6, got == want, "%s:%s" % (gb.file, gb.line), "get_tls_alpn_name(%s) evaluates to %s (RFC 8738: %s)" % (a, got, want), ["get_tls_alpn_name", "value", a])
+    else:
+        gb = prog.must_body("acmed::identifier::Identifier::get_tls_alpn_name")
+        # per address family: the text used on the V4 arm names in-addr.arpa (and not ip6.arpa), on the V6 arm ip6.arpa; the labels
+        # and the zone are joined with '.'
+        arms = {}
+        for i in sorted(gb.live_blocks()):
+            t = gb.term(i)
+            if t["t"] != "switch":
+                continue
+            dl = op_local(t["discr"])
+            for kind, bb_, j, st in gb.defs.get(dl, []):
+                if kind == "stmt" and st["s"] == "assign" and st["rv"]["k"] == "discr" and (st["rv"].get("adt") or "").endswith("IpAddr"):
+                    names = {int(v[0]): v[1] for v in st["rv"].get("variants", [])}
+                    tg = {names.get(v): x for v, x in t["arms"]}
+                    rest = [n for n in names.values() if n not in tg]
+                    if len(rest) == 1:
+                        tg[rest[0]] = t["otherwise"]
+                    arms = tg
+        zone = {}
+        if set(arms) >= {"V4", "V6"}:
+            r4, r6 = gb.reachable([arms["V4"]]), gb.reachable([arms["V6"]])
+            zone["V4"] = "".join(strings_in_blocks(gb, sorted(r4 - r6)))
+            zone["V6"] = "".join(strings_in_blocks(gb, sorted(r6 - r4)))
+        lit = format_literals(gb)
+        good = "in-addr.arpa" in zone.get("V4", "") and "ip6.arpa" not in zone.get("V4", "") and "ip6.arpa" in zone.get("V6", "") and "in-addr.arpa" not in zone.get("V6", "")
+        dotted = any(x.startswith(".") for x in lit) or "." in lit
+        ctx.require(R6, good and dotted, "%s:%s" % (gb.file, gb.line), "IPv4 -> <labels>.in-addr.arpa, IPv6 -> <labels>.ip6.arpa (V4 arm: %r, V6 arm: %r, format literals %s)" % (zone.get("V4"), zone.get("V6"), lit),
+                    ["get_tls_alpn_name", "suffixes"])
+        revs = gb.calls_to("core::iter::traits::iterator::Iterator::rev")
+        ctx.require(R6, len(revs) >= 2, "%s:%s" % (gb.file, gb.line), "octets are reversed for both address families (%d rev())" % len(revs), ["get_tls_alpn_name", "reversed"])
+        nb = prog.must_body("acmed::identifier::u8_to_nibbles_string")
+        ops = [(st["lhs"]["l"], st["rv"]["op"], op_const(st["rv"]["b"])) for i in sorted(nb.live_blocks()) for st in nb.blocks[i]["stmts"] if st["s"] == "assign" and st["rv"]["k"] == "binop" and st["rv"]["op"] in ("BitAnd", "Shr")]
+        # the two values printed, in print order (the argument array of the format!): first the low nibble (& 0x0f, no shift), then
+        # the high nibble (>> 4) — found through the formatting arguments, not through the names of the locals
+        good = False
+        for i in sorted(nb.live_blocks()):
+            for st in nb.blocks[i]["stmts"]:
+                if st["s"] == "assign" and st["rv"]["k"] == "agg" and st["rv"].get("agg") == "array" and len(st["rv"]["ops"]) == 2 and "fmt::rt::Argument" in nb.local_ty(st["lhs"]["l"]):
+                    f = origins(nb, st["rv"]["ops"][0])
+                    s_ = origins(nb, st["rv"]["ops"][1])
+                    good = "binop:BitAnd" in f.via and "binop:Shr" not in f.via and "binop:Shr" in s_.via
+        ctx.require(R6, good, "%s:%s" % (nb.file, nb.line), "IPv6 nibbles: low nibble first, then the high nibble", ["u8_to_nibbles_string", "order"])
     sup = prog.must_body("acmed::identifier::IdentifierType::supported_challenges")
 
 
